@@ -381,7 +381,8 @@ def h_abort_reader(at: int, template: str) -> None:
 
             def read():
                 seen.append(load_current(s, o))
-            read()                                   # a pooled handle exists, positioned near the end of the file
+            # (no warm-up: the injected load is the first real read of the pooled handle, so its read-ahead buffer is
+            # filled with whatever is in the file at that moment)
             sch.add(at, read, tid=1, name='reader load')
             sch.start()
             try:
